@@ -21,6 +21,7 @@ RULE = (
     "unconditional variables, for conditional ones the reference marginal cdf at the returned quantile must lie within the DKW band of the documented sample size; "
     "marginal_cdf(marginal_icdf(p)) = p; total mass (thorough: nquad of the real pdf). Non-trivial = a conditional variable is involved and the density at the point "
     "is > 0; distinct = (spec signature, operation, point)."
+    ' Also: every second case of each operation in other units (1e-3..1e3 per variable); marginal_* skipped (counted) where a dependence function is not finite on (0, inf).'
 )
 ASSUMPTIONS = [
     "non-negative families only: the code integrates from 0 (stated in the quantifier)",
